@@ -108,6 +108,8 @@ pub mod network;
 pub mod queue;
 pub mod queue_event;
 pub mod queue_peek;
+#[cfg(maybenot_verif)]
+pub mod verif;
 
 use std::{
     cmp::Ordering,
@@ -193,6 +195,14 @@ pub struct SimEvent {
     replace: bool,
     // debug note
     pub debug_note: Option<String>,
+}
+
+#[cfg(maybenot_verif)]
+impl SimEvent {
+    /// Verification hook: the internal (bypass, replace) flags of the event.
+    pub fn verif_flags(&self) -> (bool, bool) {
+        (self.bypass, self.replace)
+    }
 }
 
 /// Helper function to convert a TriggerEvent to a usize for sorting purposes.
@@ -936,11 +946,24 @@ fn trigger_update<M: AsRef<[Machine]>>(
 ) {
     let trigger_delay = state.trigger_delay();
 
+    #[cfg(maybenot_verif)]
+    verif::log(verif::Rec::Event {
+        is_client,
+        time: *current_time,
+        event: next.event.clone(),
+    });
+
     // parse actions and update
     for action in state
         .framework
         .trigger_events(&[next.event.clone()], *current_time)
     {
+        #[cfg(maybenot_verif)]
+        verif::log(verif::Rec::Action {
+            is_client,
+            time: *current_time,
+            action: action.clone(),
+        });
         match action {
             TriggerAction::Cancel { machine, timer } => {
                 debug!(
